@@ -24,6 +24,7 @@ class Clock:
         self.t = start
         self.step = timedelta(seconds=step)
         self.reads = 0
+        self.log = []
 
     def peek(self):
         return self.t
@@ -32,6 +33,7 @@ class Clock:
         t = self.t
         self.t = t + self.step
         self.reads += 1
+        self.log.append(t)
         return t
 
 
@@ -159,8 +161,17 @@ async def run_call(cfg, call, clock, s3c_module=None):
                   fail_first=call.get('fail_first', 0), fail_status=call.get('fail_status', 500))
     saved_dt = s3c.datetime
     s3c.datetime = fake_datetime_class(clock)
+    # optional instrumentation (diagnosis only; nothing depends on it): the canonical requests the client signed
+    client_crs = []
+    saved_cr = getattr(s3c, '_make_canonical_request', None)
+    if callable(saved_cr):
+        def _rec(*a, **k):
+            r = saved_cr(*a, **k)
+            client_crs.append(r)
+            return r
+        s3c._make_canonical_request = _rec
     ad, old = make_adapter(cfg, fake)
-    res = {}
+    res = {'client_crs': client_crs}
     try:
         kind = call['call']
         if kind == 'upload':
@@ -187,6 +198,8 @@ async def run_call(cfg, call, clock, s3c_module=None):
         res['error'] = f'{type(e).__name__}: {e}'[:300]
     finally:
         s3c.datetime = saved_dt
+        if callable(saved_cr):
+            s3c._make_canonical_request = saved_cr
         try:
             await ad._client.aclose()
             await old.aclose()
